@@ -10,21 +10,29 @@ pure     Remote.tla part 1: TLC enumerates the abstract envelope space (8 kinds 
          are composed on it.  P = exact contract: same kind, node, lane, body.  The text the
          model predicts is compared too (MODEL-DRIFT only).
 
-mux      MultiReader.tla (M) is model checked against order / no-loss / no-starvation invariants
-         (B3); the complete state graph for the real bucket size (3 sources; 65 and 70 sources
-         around the 64-key bucket boundary) is replayed on the real swimos_multi_reader by
-         hand-polling (B1); every replayed history (plus a drain phase) is validated by TLC
-         against Trace_MultiReader.tla (P).
+mux      MultiReader.tla (M: slab keys, flag buckets, local / queue flags, current bucket) is model
+         checked against order / no-loss / no-lost-wake-up / no-starvation invariants (B3, bucket
+         sizes 1-3 so that rotation happens with 2-3 sources); for the real bucket size 64 the
+         complete state graph (2-3 active sources; 65 sources straddling the bucket boundary) and
+         TLC-simulated behaviours (70 / 130 sources, deep queues, burst schedules) are replayed
+         call by call on the real swimos_multi_reader by hand-polling and must give the model's
+         results (B1); every replayed history plus a drain phase is validated by TLC against
+         Trace_MultiReader.tla (P: own order, nothing fabricated, nothing lost, nobody starved).
 
-routing  Remote.tla part 2 (M = registration tables, per-source FIFOs, multiplexer, router) is
-         model checked (B3: RouteExact, RequestExact, InvalidNeverDelivered, OnlyAddressee,
-         TablesSound, NothingStranded; thorough: liveness AllLeave / AllRouted).  TLC simulation of
-         the same specification generates attach / write / detach / peer scripts, concretised with
-         node / lane / body strings from the pools; they run on a real swimos_remote::RemoteTask
-         over a ratchet web socket on tokio::io::duplex (config T) and the recorded history is
-         validated by TLC against Trace_Remote.tla (P, hidden internal steps searched) (B2).
+routing  Remote.tla part 2 (M = registration queues and tables, per-source FIFOs, multiplexer,
+         router, agent resolution, not-found replies, termination by an invalid frame) is model
+         checked (B3: RouteExact, RequestExact, InvalidNeverDelivered, OnlyAddressee, TablesSound,
+         NothingStranded; thorough: liveness AllLeave / AllRouted under fairness).  TLC simulation
+         of the same specification generates attach / one-way attach / write / detach / agent /
+         peer scripts, concretised with node / lane / body strings from the pools (any class);
+         they run on a real swimos_remote::RemoteTask over a ratchet web socket on
+         tokio::io::duplex (config T; also 70 / 130 downlinks on one socket) and the recorded
+         history is validated by TLC against Trace_Remote.tla (P = Remote.tla's contract with
+         the unobservable steps searched) (B2).
+
+Findings: known_findings/C11.json (F7, fixed in /repo by 8500a7b: suppresses nothing).
 """
-import json, os, random, concurrent.futures as cf
+import json, os, random, time, concurrent.futures as cf
 from vlib import core
 from vlib import replay as rp
 
@@ -382,10 +390,9 @@ def mux_part(tier, out, wd, rng, stats, cov, res):
         if ci == 0 and cases:
             out.sample({"multireader_calls_with_expected_results": cases[len(cases) // 2]["acts"][:10]})
         core.log("[C11] mux cfg %s: %d paths replayed" % (k, len(cases)))
-    import time as _t
-    _t0 = _t.time()
+    _t0 = time.time()
     n_ev, fails, _ = validate_many("Trace_MultiReader", histories, wd)
-    core.log("[C11]   tlc Trace_MultiReader: %d events, %.1fs" % (n_ev, _t.time() - _t0))
+    core.log("[C11]   tlc Trace_MultiReader: %d events, %.1fs" % (n_ev, time.time() - _t0))
     st["p_events"] = n_ev
     failed_idx = set()
     for idx, at, ev, _kf in fails:
